@@ -37,7 +37,7 @@ pub fn strategy(s: &'static dyn Proto) -> BoxedStrategy<Case> {
         prop_oneof![2 => Just(IdSpec::Absent), 3 => gen::bytes_param().prop_map(IdSpec::Explicit)],
         prop_oneof![2 => Just(IdSpec::Absent), 3 => gen::bytes_param().prop_map(IdSpec::Explicit)],
         gen::opt_ctx(gen::bytes_param()),
-        super::c01::ksf_for(s, 1),
+        ksf_with_output_len(s),
         prop::bool::weighted(0.25),
         prop::bool::weighted(0.15),
         gen::tape(),
@@ -54,6 +54,21 @@ pub fn strategy(s: &'static dyn Proto) -> BoxedStrategy<Case> {
             tape,
         })
         .boxed()
+}
+
+/// the KSF choices of C01 plus, where the suite's KSF type can be an Argon2 instance, instances with an
+/// explicitly configured output length (RFC 9807: Stretch = Argon2id(S = zeroes(16), T = Nh, ...), so
+/// such an instance is either refused or still evaluated with T = Nh)
+fn ksf_with_output_len(s: &'static dyn Proto) -> BoxedStrategy<Option<KsfSpec>> {
+    let base = super::c01::ksf_for(s, 1);
+    match s.meta().ksf {
+        KsfKind::Dyn | KsfKind::RealArgon2 => prop_oneof![
+            12 => base,
+            1 => prop::sample::select(vec![16u32, 32, 48, 64]).prop_map(|out_len| Some(KsfSpec::Argon2Out { m_kib: 8, t: 1, p: 1, out_len })),
+        ]
+        .boxed(),
+        _ => base,
+    }
 }
 
 /// find the recorded `nsk`-byte draw whose DeriveDiffieHellmanKeyPair has public key `pk`
@@ -73,7 +88,12 @@ pub fn check(s: &'static dyn Proto, c: &Case, st: &mut Stats, _k: &KnownFindings
     let suite = Suite::of(&m);
     // default KSF of the suite = Identity for DynKsf suites
     ksf::set_default_spec(KsfSpec::Identity);
+    let mut configured_out_len: Option<usize> = None;
     let eff_ksf: KsfSpec = match (&c.ksf, m.ksf) {
+        (Some(KsfSpec::Argon2Out { m_kib, t, p, out_len }), _) => {
+            configured_out_len = Some(*out_len as usize);
+            KsfSpec::Argon2 { m_kib: *m_kib, t: *t, p: *p }
+        }
         (Some(k), _) => k.clone(),
         (None, KsfKind::RealArgon2) => KsfSpec::Argon2Default,
         (None, KsfKind::Zst) => KsfSpec::H(ksf::ZST_FAMILY),
@@ -119,9 +139,21 @@ pub fn check(s: &'static dyn Proto, c: &Case, st: &mut Stats, _k: &KnownFindings
     let resp = s.server_reg_start(&setup, &req, &cred).map_err(|e| hx(e, "server reg start"))?;
     let resp_b = s.ser(Codec::Native, &resp);
     let mut r2 = c.tape.sub(2).rng();
-    let fin = s
-        .client_reg_finish(cst, &mut r2, &pw, &resp, ids, c.ksf.as_ref())
-        .map_err(|e| hx(e, "client reg finish"))?;
+    let fin = match s.client_reg_finish(cst, &mut r2, &pw, &resp, ids, c.ksf.as_ref()) {
+        Ok(f) => f,
+        Err(_) if configured_out_len.map_or(false, |k| k != m.nh) => {
+            // an Argon2 instance configured for another tag length than Nh may be refused; if it is
+            // accepted, everything below must still be the RFC's values (T = Nh)
+            st.eval(1);
+            st.label("ksf:argon2 with output_len != Nh refused");
+            st.nontrivial(&(m.name, c));
+            return Ok(());
+        }
+        Err(e) => return Err(hx(e, "client reg finish")),
+    };
+    if let Some(k) = configured_out_len {
+        st.label(if k == m.nh { "ksf:argon2 with output_len == Nh" } else { "ksf:argon2 with output_len != Nh accepted" });
+    }
     let upload_b = s.ser(Codec::Native, &fin.upload);
     let record = s.server_reg_finish(&fin.upload);
     let record_b = s.ser(Codec::Native, &record);
